@@ -116,7 +116,13 @@ class Problem:
         self.tols = [ex.real(f"tol{i}") for i in range(NT)]
         for t in self.tols:
             ex.assume(tobool(t > 0))
-        self.targets = [self.act.target(f"t{i}", self.tvals[i], tol=self.tols[i], tag=f"tt{i}") for i in range(NT)]
+        logs = case.get("optimize_log", [])
+        for i in logs:
+            # log targets need positive values
+            self.tvals[i] = ex.real(f"tvlog{i}")
+            ex.assume(tobool(self.tvals[i] > 0))
+        self.targets = [self.act.target(f"t{i}", self.tvals[i], tol=self.tols[i], tag=f"tt{i}", optimize_log=(i in logs))
+                        for i in range(NT)]
 
     def make_opt(self, **kw):
         so = dict(n_bisections=self.case.get("n_bisections", 0),
